@@ -6,6 +6,7 @@ package main
 import (
 	"fmt"
 	"os"
+	"runtime/pprof"
 	"strings"
 
 	"github.com/free5gc/go-upf/internal/verif/vh"
@@ -26,6 +27,11 @@ func main() {
 	}
 	vh.ParseOpts(name, os.Args[2:])
 	vh.InitLogging()
+	if pf := os.Getenv("VERIF_PROF"); pf != "" {
+		f, _ := os.Create(pf)
+		pprof.StartCPUProfile(f)
+		defer pprof.StopCPUProfile()
+	}
 	res := vh.NewResult(strings.ToUpper(name))
 	fn(res)
 	res.Finish()
